@@ -159,23 +159,6 @@ def loneExtremeTie (q : Query) (rows : List Row) : Bool :=
 def showRowTie (tie : Bool) (r : OutRow) : String :=
   if tie then "~:" ++ ",".intercalate (r.vals.map showVal) else showRow r
 
-/-- fill(previous) with several calls or a group-by tag: the executor's previous-value
-bookkeeping is a known finding (class fill-previous-multi); the cells that hold a filled value
-are printed as `?` on both sides, everything else (buckets, real values) is compared exactly. -/
-def maskedFill (q : Query) : Bool :=
-  q.agg && q.interval != 0 && q.fill == .previous && (decide (1 < q.calls.length) || q.grp != .none)
-
-def fillSentinel : Int := -1099511627776
-
-def isSentinel : Val → Bool
-  | .int v => v == fillSentinel || v == fillSentinel * 8
-  | .rat n _ => n == fillSentinel || n == fillSentinel * 8
-  | .null => true    -- fill(<number>) leaves only the cells of boolean / string calls null
-
-def showRowMasked (r m : OutRow) : String :=
-  showTime r.t ++ ":" ++ ",".intercalate
-    ((r.vals.zip m.vals).map (fun (v, mv) => if isSentinel mv then "?" else showVal v))
-
 /-- canonical answer of a statement. -/
 def answer (q : Query) (db : Db) : String :=
   let rows := db.filter q.keep
@@ -187,10 +170,6 @@ def answer (q : Query) (db : Db) : String :=
     let cut := if q.agg then [] else cutTimes q.limit q.offset full
     let out := applyLimit q.limit q.offset full
     if out.isEmpty then none
-    else if maskedFill q then
-      let qm := { q with fill := Fill.number fillSentinel }
-      let outM := applyLimit q.limit q.offset (qm.evalAgg grows)
-      some (showGroupTag q.grp k ++ "{" ++ ";".intercalate ((out.zip outM).map (fun (r, m) => showRowMasked r m)) ++ "}")
     else if loneExtremeTie q grows then
       some (showGroupTag q.grp k ++ "{" ++ ";".intercalate (out.map (showRowTie true)) ++ "}")
     else some (showGroupTag q.grp k ++ "{" ++ ";".intercalate (out.map (showRowCut cut)) ++ "}"))
